@@ -1,6 +1,7 @@
 package fsad
 
 import (
+	"bytes"
 	"fmt"
 	"sort"
 	"strings"
@@ -311,20 +312,40 @@ func (in *HKVFaultInst) enumerate(call *tla.Value) {
 		if failAt > 0 {
 			ctl.FailAt = ctl.Count() + failAt
 		}
-		pre := ctl.Count()
+		before := in.snapshot(h)
 		o = h.do(call)
 		ctl.FailAt = 0
-		_ = pre
 		after = in.snapshot(h)
+		// a call that failed and left the names as they were must leave the handles attached to their file too: a write
+		// that then succeeds through one of them has to show under the name (213: a byte no model value uses)
+		link := in.state.F("link").S
+		// (only while the file still has the name it was opened under: keyvalue handles do not follow a renamed file's record)
+		attached := failAt > 0 && o.Err != nil && after == before && link == "f"
 		// every open handle must keep answering
 		for i := 1; i < len(h.hs); i++ {
 			if h.hs[i] == nil {
 				continue
 			}
 			for _, probe := range []string{"stat", "read", "seek", "write", "truncate"} {
-				c := tla.MustParse(fmt.Sprintf(`[op |-> "%s", h |-> %d, n |-> 1, off |-> 0, bs |-> <<1>>, wh |-> 2, acc |-> "RO", app |-> FALSE, tr |-> FALSE]`, probe, i))
-				if po := h.do(&c); po.Panic != "" {
+				c := tla.MustParse(fmt.Sprintf(`[op |-> "%s", h |-> %d, n |-> 1, off |-> 0, bs |-> <<213>>, wh |-> 2, acc |-> "RO", app |-> FALSE, tr |-> FALSE]`, probe, i))
+				po := h.do(&c)
+				if po.Panic != "" {
 					panics = append(panics, probe)
+				}
+				if probe == "write" && attached && po.Err == nil && po.N == 1 {
+					if data, err := hackpadfs.ReadFile(h.fs, link); err != nil || !bytes.Contains(data, []byte{213}) {
+						panics = append(panics, "write-lost")
+					}
+					// in-memory stores share the blob with the handle, so lost bytes do not show; a lost write-back of the
+					// record does: the mode set through the handle must be the mode of the name
+					func() {
+						defer func() { _ = recover() }()
+						if err := hackpadfs.ChmodFile(h.hs[i], 0741); err == nil {
+							if info, serr := hackpadfs.Stat(h.fs, link); serr != nil || info.Mode().Perm() != 0741 {
+								panics = append(panics, "write-lost")
+							}
+						}
+					}()
 				}
 			}
 		}
@@ -350,6 +371,10 @@ func (in *HKVFaultInst) enumerate(call *tla.Value) {
 			in.faults = append(in.faults, "fault-swallowed "+cls)
 		}
 		for _, p := range panics {
+			if p == "write-lost" {
+				in.faults = append(in.faults, "handle-write-lost-after-failed-call ("+cls+")")
+				continue
+			}
 			in.faults = append(in.faults, "handle-panics-after-fault "+p+" ("+cls+")")
 		}
 	}
